@@ -158,3 +158,16 @@ Theorem C07_unstable_feed_never_no_phase_split : forall (g : guess_in) (st : sta
   snd (cascade g st) <> inr no_phase_split.
 Proof. exact unstable_feed_never_no_phase_split. Qed.
 Print Assumptions C07_unstable_feed_never_no_phase_split.
+
+(** trial phases of [define_trial_state]: the nearly pure (liquid-like) trial compositions are normalised; the vapour-like trial
+    is one substitution step from an ideal gas *)
+Theorem C07_trial_liquid_normalized : forall (z : list R) (k : nat),
+  (k < length z)%nat -> (rsum z - nth k z 0 <> 0)%R -> rsum (trial_liquid z k) = 1%R.
+Proof. exact trial_liquid_normalized. Qed.
+Print Assumptions C07_trial_liquid_normalized.
+
+Theorem C07_trial_vapor_is_substitution : forall z pz : list R,
+  List.Forall (fun v => (0 < v)%R) z -> length pz = length z ->
+  trial_vapor_amounts z pz = ss_map (dvec z pz) (map (fun _ => 0%R) z).
+Proof. exact trial_vapor_is_substitution. Qed.
+Print Assumptions C07_trial_vapor_is_substitution.
